@@ -1,5 +1,5 @@
 import json, itertools, collections, sys
-import sys; sys.path.insert(0, "/repo")
+import sys; sys.path.insert(0, __import__('os').environ.get('SUT', '/repo'))
 from simple_ddl_parser import DDLParser
 atoms = ["a","Z","5"," ",",","(",")","=",";",":",".","-","+","*","/","%","$","!","?","&","|","^","~","@","#","<",">","[","]","{","}","_",'"',"`","\\",
          ", "," ,","( ","--","/*","*/","''","SELECT","NULL","CREATE","é","Ж","中"]
